@@ -23,6 +23,7 @@ type SolveResult struct {
 	File    string
 	Tried   []string
 	Part    string // failing conjunct, when the goal was split
+	Confirm string // cross-check by a second solver: "<solver>:<status>"
 }
 
 // specDefs renders the definitions of all spec functions reachable from the used set.
@@ -324,6 +325,9 @@ type SolveOpts struct {
 	Jobs     int
 	NoLead   bool
 	Kinds    map[string]bool // nil = all obligation kinds
+	// CrossCheck (thorough tier): every discharged obligation is put to a second, different
+	// solver; its verdict is recorded (Confirm) and a contradiction (sat against unsat) is a failure.
+	CrossCheck bool
 }
 
 // discharge runs the solver portfolio on every obligation of the results, in parallel.
@@ -394,6 +398,25 @@ func solveOb(ob *Obligation, prelude, query, base string, opts SolveOpts) *Solve
 		// that finds no contradiction within a few seconds is good enough
 		r := runSolver(solvers[opts.Portfolio[0]], query, opts.Dir, base, 3, false)
 		r.Tried = []string{fmt.Sprintf("%s:%s:%.2fs", opts.Portfolio[0], r.Status, r.Seconds)}
+		return r
+	}
+	if opts.CrossCheck {
+		o2 := opts
+		o2.CrossCheck = false
+		r := solveOb(ob, prelude, query, base, o2)
+		if r.Status == "unsat" && r.Solver != "syntactic" && r.Solver != "trivial" {
+			other := "cvc5"
+			if strings.HasPrefix(r.Solver, "cvc5") {
+				other = "z3-new"
+			}
+			c := runSolver(solvers[other], query, opts.Dir, base+".x", 15, false)
+			r.Confirm = other + ":" + c.Status
+			if c.Status == "sat" {
+				// the solvers contradict each other: not discharged
+				r.Status = "unknown"
+				r.Output = "solver disagreement: " + r.Solver + " says unsat, " + other + " says sat\n" + c.Output
+			}
+		}
 		return r
 	}
 	parts := splitAnd(ob.Goal)
